@@ -283,6 +283,16 @@ def cbcEncryptCall {β : Type} (xor : β → β → β) (E : β → β) (s : Cbc
 def cbcDecryptCall {β : Type} (xor : β → β → β) (D : β → β) (s : CbcState β) (cs : List β) : List β × CbcState β :=
   (Spec.cbcDecrypt xor D s.ivDec cs, { s with ivDec := cs.getLastD s.ivDec })
 
+/-- a sequence of `encrypt` calls on one object: the outputs, concatenated -/
+def cbcEncryptCalls {β : Type} (xor : β → β → β) (E : β → β) : CbcState β → List (List β) → List β
+  | _, [] => []
+  | s, ps :: rest => (cbcEncryptCall xor E s ps).1 ++ cbcEncryptCalls xor E (cbcEncryptCall xor E s ps).2 rest
+
+/-- a sequence of `decrypt` calls on one object: the outputs, concatenated -/
+def cbcDecryptCalls {β : Type} (xor : β → β → β) (D : β → β) : CbcState β → List (List β) → List β
+  | _, [] => []
+  | s, cs :: rest => (cbcDecryptCall xor D s cs).1 ++ cbcDecryptCalls xor D (cbcDecryptCall xor D s cs).2 rest
+
 def xorBytes (a b : Bytes) : Bytes := List.zipWith (· ^^^ ·) a b
 
 /-! ## `key::set_hex` -/
@@ -302,5 +312,16 @@ def setHex (s : Bytes) : KeyResult :=
   else if Gen.hexOddLen s.length then .oddLength
   else if !(s.all fun c => Gen.hexCharOk c.toNat) then .invalidChar
   else .ok (hexPairs s)
+
+/-- `key::read_from_file` on a file with the given content (I/O errors are not modelled) -/
+inductive KeyFileResult where
+  | emptyFile
+  | parsed (r : KeyResult)
+deriving DecidableEq, Repr
+
+def stripTrailingWs (s : Bytes) : Bytes := (s.reverse.dropWhile fun c => Gen.keyFileWs c.toNat).reverse
+
+def readFromFile (content : Bytes) : KeyFileResult :=
+  if content.length = 0 then .emptyFile else .parsed (setHex (stripTrailingWs content))
 
 end Cppcms.C16
